@@ -946,7 +946,7 @@ pub fn run(cfg: &Cfg) -> Report {
     report.absorb(ctx);
 
     // (C) modular solver
-    let nmod = cfg.tier.pick(40_000, 1_000_000);
+    let nmod = cfg.tier.pick(40_000, 4_000_000);
     let ctx = par_range(cfg, nmod, |ctx, k| {
         let mut rng = Rng::stream(seed, 0x18_8000_0000 + k as u64);
         modular(ctx, &mut rng, k);
